@@ -32,7 +32,7 @@ NOT_DECIDED = ["equality of coordinates within the format's precision (numerical
                "value ranges against field widths (overflow)", "gro time regex vs the %s spelling of floats"]
 ASSUMPTIONS = ["in_units_of(q, a, b) converts from a to b and is the only unit conversion used at the file boundary",
                "the format specifications fix: xtc/trr/gro/h5/lh5 nm; dcd/netcdf/rst7/ncrst/mdcrd/xyz/lammpstrj(real)/pdb/dtr/arc angstrom"]
-FLOORS = {"C01-R8": 54, "C01-R1": 50, "C01-R2": 60, "C01-R3": 20, "C01-R4": 9, "C01-R5": 25, "C01-R6": 8, "C01-R7": 6}
+FLOORS = {"C01-R9": 7, "C01-R8": 54, "C01-R1": 50, "C01-R2": 60, "C01-R3": 20, "C01-R4": 9, "C01-R5": 25, "C01-R6": 8, "C01-R7": 6}
 
 TRAJ = "mdtraj/core/trajectory.py"
 WRITABLE = [".h5", ".xtc", ".trr", ".dcd", ".nc", ".netcdf", ".ncdf", ".mdcrd", ".crd", ".xyz", ".xyz.gz", ".lammpstrj", ".gro",
@@ -88,7 +88,9 @@ def check(ctx):
     r4_box_lookahead(ctx)
     r8_text_round_trip(ctx)
     r8_pdb(ctx)
+    r9_end_to_end(ctx)
     r2_fields_unconditional(ctx)
+    ctx.rule("C01-R9", "save then load end to end (saver, file class, text, file class, loader all evaluated; unit conversion symbolic): the loaded trajectory carries the coordinates, cell and time that were saved, in nm / ps / degrees")
     ctx.rule("C01-R8", "text formats (xyz, mdcrd, lammpstrj, gro): write() and read() of the file class both evaluated - what is read back from the text written is what went in (coordinates, cell, time), laid out as the format tables say")
     ctx.rule("C01-R6", "in `for i in range(self.n_frames)` loops of savers every per-frame argument of f.write is subscripted by the loop variable")
     reg = F.registry(ctx)
@@ -903,3 +905,52 @@ def r8_pdb(ctx):
                     col += w_
             ctx.decide(lay == [(6, "9.3f"), (15, "9.3f"), (24, "9.3f"), (33, "7.2f"), (40, "7.2f"), (47, "7.2f")], "C01-R8", wfn, rel, q, "CRYST1 record: 9.3 x 3 from column 7, 7.2 x 3 from column 34", "",
                        "%d CRYST1 records, fields at %s" % (len(cr), lay))
+
+
+def r9_end_to_end(ctx):
+    """Trajectory.save_<fmt> followed by load_<fmt>, every function on the way evaluated (sa/e2e.py): the saver, the file class (constructor, context
+    manager, write), the text on the model disk, the file class again (read_as_traj, read) and the loader, with unit conversion symbolic
+    (in_units_of(q, u1, u2) = q*unit[u1]/unit[u2]).  By value: the loaded trajectory has the coordinates that were saved, in nanometres - i.e. the saver's
+    conversion into the file's unit and the reader's conversion back are inverse - and the cell / time the format stores."""
+    from .. import writers as W, e2e as E, textio as T
+    from ..tensym import Raised, Ten
+    from ..pysym import Unsupported as PUnsupported
+    NF = 2
+    for key in ("xyz", "mdcrd", "lammpstrj", "gro"):
+        rel, cls = F.rel_cls(key)
+        saver = ctx.py.func(E.TRAJ, "Trajectory.save_" + key)
+        q = "Trajectory.save_%s / load_%s" % (key, key)
+        for have_cell in (True, False):
+            if key == "lammpstrj" and not have_cell:
+                continue        # the LAMMPS writer requires a cell
+            desc = "save then load (%s): coordinates in nm%s come back" % ("with a cell" if have_cell else "no cell", {"gro": ", cell vectors, time", "xyz": ""}.get(key, ", cell") if have_cell else (", time" if key == "gro" else ""))
+            try:
+                world = W.World(NF, cell=True, ortho=True, time=True)
+                pieces, t = E.save_and_load(ctx, key, world, have_cell=have_cell)
+            except Raised as e:
+                ctx.violated("C01-R9", saver, E.TRAJ, q, desc, "refused: %s" % (e.exc or e))
+                continue
+            except PUnsupported as e:
+                ctx.undecided("C01-R9", saver, E.TRAJ, q, desc, "not evaluable: %s" % e)
+                continue
+            why = []
+            x = getattr(t, "xyz", None) if t is not None else None
+            if not (isinstance(x, Ten) and x.shape == world.x.shape and all(T.same_value(a_, b_) for a_, b_ in zip(x.data, world.x.data))):
+                why.append("xyz[0,0,0] comes back as %s" % (repr(x.data[0])[:90] if isinstance(x, Ten) and x.data else getattr(x, "shape", x)))
+            if have_cell and key in ("mdcrd", "lammpstrj"):
+                L, A = t.__dict__.get("unitcell_lengths"), t.__dict__.get("unitcell_angles")
+                if not (isinstance(L, Ten) and L.shape == world.L.shape and all(T.same_value(a_, b_) for a_, b_ in zip(L.data, world.L.data))):
+                    why.append("cell lengths come back as %s" % (repr(L.data[0])[:80] if isinstance(L, Ten) and L.data else L))
+                if not (isinstance(A, Ten) and all(T.same_value(a_, b_) for a_, b_ in zip(A.data, world.A.data))):
+                    why.append("cell angles come back as %s" % (repr(A.data[:3])[:60] if isinstance(A, Ten) else A))
+            if not have_cell and key in ("mdcrd", "xyz"):
+                if t.__dict__.get("unitcell_lengths") is not None or t.__dict__.get("unitcell_vectors") is not None:
+                    why.append("a cell is loaded from a file saved without one")
+            if key == "gro":
+                B = t.__dict__.get("unitcell_vectors")
+                if have_cell and not (isinstance(B, Ten) and B.shape == world.B.shape and all(T.same_value(a_, b_) for a_, b_ in zip(B.data, world.B.data))):
+                    why.append("cell vectors come back as %s" % (repr(B.data[:2])[:80] if isinstance(B, Ten) else B))
+                tm = t.__dict__.get("time")
+                if not (isinstance(tm, Ten) and all(T.same_value(a_, b_) for a_, b_ in zip(tm.data, world.t.data)) and len(tm.data) == NF):
+                    why.append("time comes back as %s" % (repr(tm.data)[:60] if isinstance(tm, Ten) else tm))
+            ctx.decide(not why, "C01-R9", saver, E.TRAJ, q, desc, "", "; ".join(why[:2]))
